@@ -36,6 +36,27 @@ def check_c16(budget):
     from auditok.core import AudioRegion
     t0 = time.time()
     ev = 0
+    # the milliseconds view of a very short region (rounded duration 0 ms) still equals the seconds view at t/1000
+    for nn, sr_ in ((4, 16000), (3, 8000), (1, 44100)):
+        ev += 1
+        r = AudioRegion(bytes(range(2 * nn)), sr_, 2, 1)
+        for a_, b_ in ((None, None), (0, None), (0, 1), (None, 1)):
+            ms_ = bytes(r.ms[a_:b_])
+            sec_ = bytes(r.sec[(None if a_ is None else a_ / 1000):(None if b_ is None else b_ / 1000)])
+            if ms_ != sec_:
+                return {"kind": "region", "pid": "C16", "op": "millis-short", "args": [nn, sr_, a_, b_],
+                        "observed": "%d samples at %d Hz: ms[%r:%r] has %d bytes, sec view at t/1000 has %d" % (nn, sr_, a_, b_, len(ms_), len(sec_))}, ev
+    # a step raises TypeError whatever the bounds are
+    r = AudioRegion(bytes(range(40)), 10, 2, 1)
+    for view, nm in ((r, "region"), (r.sec, "sec"), (r.ms, "ms")):
+        for sl in (slice(None, None, 2), slice(None, None, -1), slice(None, None, 1), slice(1, None, 2), slice(None, 3, 1)):
+            ev += 1
+            try:
+                view[sl]
+                return {"kind": "region", "pid": "C16", "op": "step", "args": [nm, repr(sl)],
+                        "observed": "%s[%r] returned a result instead of raising TypeError" % (nm, sl)}, ev
+            except TypeError:
+                pass
     # a view taken from a temporary region keeps working after the region variable is gone and the collector has run
     import gc
     for nm in ("sec", "ms"):
@@ -165,6 +186,27 @@ def check_c17(budget):
             if b"".join(bytes(p) for p in parts) != data or len(parts) != min(k, n) or max(lens) - min(lens) > 1:
                 return {"kind": "region", "pid": "C17", "op": "div", "args": [n, k, sr, 2, 2],
                         "observed": "%d pieces of lengths %r for %d samples" % (len(parts), lens, n)}, ev
+    # data that is not a whole number of samples is rejected, with or without a start time
+    for st_ in (None, 0, 1.5):
+        for extra in (1, 3):
+            ev += 1
+            try:
+                AudioRegion(bytes(16 + extra), 8000, 2, 2, start=st_)
+                return {"kind": "region", "pid": "C17", "op": "ctor", "args": [16 + extra, st_],
+                        "observed": "%d bytes of 16-bit stereo accepted at construction (start=%r)" % (16 + extra, st_)}, ev
+            except AudioParameterError:
+                pass
+    # same frame size, different width / channels: still an audio-parameter error
+    for (p1, p2) in (((16, 2, 1), (16, 1, 2)), ((16, 4, 1), (16, 2, 2)), ((16, 2, 2), (16, 1, 4))):
+        a, b = AudioRegion(bytes(8), *p1), AudioRegion(bytes(8), *p2)
+        for opn, f in (("add", lambda: a + b), ("sum", lambda: sum([a, b])), ("join", lambda: a.join([a, b]))):
+            ev += 1
+            try:
+                f()
+                return {"kind": "region", "pid": "C17", "op": opn + "-same-frame-size", "args": [list(p1), list(p2)],
+                        "observed": "no AudioParameterError for regions %r and %r" % (p1, p2)}, ev
+            except AudioParameterError:
+                pass
     # pieces of a division (and slices) are ordinary regions: their sum is the original, they can be repeated and
     # concatenated, and += on a variable leaves the objects it referred to unchanged
     for sw, ch in fmts:
